@@ -545,10 +545,8 @@ def extract_biogeme():
             st = [x for x in s.body if not tr.ignorable(x)]
             need([U(x) for x in st] == ['self._load_saved_iteration()'] and not s.orelse, 'estimate: save_iterations branch changed')
             skeleton.append('if self.save_iterations: self._load_saved_iteration()')
-        elif isinstance(s, ast.For) and U(s.iter) == 'self.formulas.values()':
-            need(U(s.target) == 'f' and [U(x) for x in s.body] == ['f.change_init_values(estimated_betas)'] and not s.orelse,
-                 'estimate: write-back loop changed')
-            skeleton.append('for f in self.formulas.values(): f.change_init_values(estimated_betas)')
+        elif u == 'self.change_init_values(estimated_betas)':
+            skeleton.append(u)       # the write-back: BIOGEME.change_init_values (formulas AND the starting vector)
         elif isinstance(s, ast.If) and U(s.test) == 'run_bootstrap':
             # the bootstrap block: re-estimations started at xstar, stored row by row; it leaves xstar, f_g_h_b, the
             # convergence status and the messages of the estimation alone
@@ -622,6 +620,14 @@ def extract_biogeme():
                       'Definition derivative_buffers : list (string * string) :=\n  '
                       + coq_list([f'({S(a)}, {S(b)})' for a, b in alloc]) + '.\n'
                       f'Definition derivative_buffers_fresh : bool := {coq_bool(fresh)}.\n')
+    # ---- BIOGEME.change_init_values (the write-back of estimate, the restart file): every formula, then the starting vector
+    fd = tr.find('BIOGEME.change_init_values')
+    st = [' '.join(U(x).split()) for x in fd.body if not tr.ignorable(x)]
+    need(st == ['if self.log_like is not None: self.log_like.change_init_values(betas)',
+                'if self.weight is not None: self.weight.change_init_values(betas)',
+                'for _, f in self.formulas.items(): f.change_init_values(betas)',
+                'for i, name in enumerate(self.id_manager.free_betas.names): value = betas.get(name) if value is not None: '
+                'self.id_manager.free_betas_values[i] = value'], f'BIOGEME.change_init_values: changed: {st}')
     # calculate_init_likelihood
     fd = tr.find('BIOGEME.calculate_init_likelihood')
     st = [' '.join(U(s).split()) for s in fd.body if not tr.ignorable(s)]
@@ -1276,9 +1282,11 @@ def check_run(problem, run, r):
     start = {p['name']: h2f(p['init']) for p in run['params']}
     if run.get('iter_start'):
         start.update({k: h2f(v) for k, v in run['iter_start'].items()})
-    for a in run.get('pre') or []:
+    for a, lg in zip(run.get('pre') or [], r.get('pre_log') or []):
         if a[0] in ('estimate_from', 'quick_from'):      # BIOGEME.change_init_values(point) before an earlier estimation
             start.update({k: h2f(v) for k, v in a[1].items()})
+        if lg.get('estimates'):                          # a completed estimate() writes its estimates back: the next one starts there
+            start.update({k: h2f(v) for k, v in lg['estimates'].items()})
     x0 = [start[n] for n in names]
     info['moved'] = any(a != b for a, b in zip(x, x0))
     if not all(math.isfinite(v) for v in x + [L, L0] + g):
@@ -1479,7 +1487,12 @@ def check_run(problem, run, r):
                 out.append(Finding('writeback-fixed', f'the fixed parameter {b0["name"]} was modified by the estimation',
                                    h2f(b0['init']), h2f(b1['init'])))
                 break
+    # ... and into the object's own starting vector (BIOGEME.change_init_values): a second estimate() starts at the estimates
     info['idm_stale'] = [h2f(v) for v in r['idm_after']] != x
+    if [Fraction(h2f(v)) for v in r['idm_after']] != [Fraction(v) for v in x]:
+        out.append(Finding('writeback-start-vector', 'after estimation the starting vector of the BIOGEME object (id_manager.free_betas_values) '
+                           'does not hold the estimates: a second estimate() / calculate_init_likelihood() would not start from them',
+                           x, [h2f(v) for v in r['idm_after']]))
     return out, info
 
 
